@@ -599,3 +599,108 @@ def config_section_agreement(ctx, rid, what=""):
             if p != major:
                 ctx.bad(rid, node, f"{q}: the configuration key {k!r} is looked up under [{'.'.join(p) or '<root>'}] here but under [{'.'.join(major) if major else ' / '.join('.'.join(x) for x in cnt)}] elsewhere in the package: at one of the places the key is silently absent (a `.get` returns its default){what}",
                         construct=f"config key {k} under {'.'.join(p) or '<root>'}")
+
+
+# --------------------------------------------------------------------------
+# configuration origin of an expression / agreement between call sites
+# --------------------------------------------------------------------------
+
+def config_origin_tables(tree):
+    """(properties, dictkeys): REPEX_state properties that return a config chain, and keys of
+    dict literals (anywhere in the package) whose value has a config origin."""
+    from ..loader import FUNC
+    from ..util import REPEX
+    props = {}
+    cls = tree.cls(REPEX, "REPEX_state")
+    for st in cls.body:
+        if isinstance(st, FUNC) and any(isinstance(d, ast.Name) and d.id == "property" for d in st.decorator_list):
+            rets = [r for r in walk_local(st) if isinstance(r, ast.Return) and r.value is not None]
+            if len(rets) == 1:
+                c = _cfg_chain(rets[0].value, {})
+                if c:
+                    props[st.name] = tuple(c)
+    dictkeys = {}
+    for m, q, f in tree.all_funcs():
+        if m.rel.startswith("infretis/tools"):
+            continue
+        for d in [x for x in walk_local(f) if isinstance(x, ast.Dict)]:
+            for k, v in zip(d.keys, d.values):
+                if not (isinstance(k, ast.Constant) and isinstance(k.value, str)):
+                    continue
+                o = None
+                c = _cfg_chain(v, {})
+                if c:
+                    o = tuple(c)
+                elif isinstance(v, ast.Attribute) and isinstance(v.value, ast.Name) and v.value.id in ("state", "self") and v.attr in props:
+                    o = props[v.attr]
+                if o is not None:
+                    dictkeys.setdefault(k.value, set()).add(o)
+    return props, dictkeys
+
+
+def config_origin(e, props, dictkeys):
+    """Config path a value comes from, or None."""
+    c = _cfg_chain(e, {})
+    if c:
+        return tuple(c)
+    if isinstance(e, ast.Attribute) and isinstance(e.value, ast.Name) and e.value.id in ("self", "state") and e.attr in props:
+        return props[e.attr]
+    # X[...]["k1"]["k2"]: the first key that names a config-backed dict entry
+    keys = []
+    b = e
+    while isinstance(b, ast.Subscript):
+        keys.append(b.slice.value if isinstance(b.slice, ast.Constant) else None)
+        b = b.value
+    keys.reverse()
+    for i, k in enumerate(keys):
+        if isinstance(k, str) and k in dictkeys and len(dictkeys[k]) == 1 and all(isinstance(x, str) for x in keys[i + 1:]):
+            return tuple(next(iter(dictkeys[k]))) + tuple(keys[i + 1:])
+    return None
+
+
+def callsite_config_agreement(ctx, rid, callee, params, what=""):
+    """All call sites of `callee` pass, for each of `params`, a value with the same
+    configuration origin (same key of the run configuration)."""
+    tree = ctx.tree
+    props, dictkeys = config_origin_tables(tree)
+    target = None
+    for m, q, f in tree.all_funcs():
+        if f.name == callee and "." not in q:
+            target = f
+    if target is None:
+        from ..loader import AnalysisError
+        raise AnalysisError(f"{rid}: function {callee} not found")
+    pnames = [a.arg for a in target.args.posonlyargs + target.args.args]
+    sites = []
+    for m, q, f in tree.all_funcs():
+        if m.rel.startswith("infretis/tools"):
+            continue
+        for c in walk_local(f):
+            if isinstance(c, ast.Call) and last_name(c) == callee and f is not target:
+                sites.append((q, c))
+    if len(sites) < 2:
+        from ..loader import AnalysisError
+        raise AnalysisError(f"{rid}: {len(sites)} call site(s) of {callee} found (expected >= 2)")
+    for p in params:
+        origins = []
+        for q, c in sites:
+            arg = None
+            if p in pnames and pnames.index(p) < len(c.args):
+                arg = c.args[pnames.index(p)]
+            for k in c.keywords:
+                if k.arg == p:
+                    arg = k.value
+            origins.append((q, c, arg, config_origin(arg, props, dictkeys) if arg is not None else "<default>"))
+        vals = {o for _, _, _, o in origins}
+        if len(vals) == 1 and None not in vals:
+            ctx.ok(rid, sites[0][1], f"{callee}(... {p} ...): every call site passes configuration key {'.'.join(next(iter(vals))) if isinstance(next(iter(vals)), tuple) else next(iter(vals))}")
+            continue
+        # majority / reference: the origins that are config paths
+        import collections
+        cnt = collections.Counter(o for _, _, _, o in origins if isinstance(o, tuple))
+        ref = cnt.most_common(1)[0][0] if cnt else None
+        for q, c, arg, o in origins:
+            if o != ref or ref is None:
+                shown = "the default" if o == "<default>" else ("an expression that is not a configuration key: " + short(arg, 40) if o is None else ".".join(o))
+                ctx.bad(rid, c, f"{q}: {callee} is called with {p} = {shown}, while another call site passes {'.'.join(ref) if ref else 'something else'}: the same path gets different weights depending on where it is (re)computed{what}",
+                        construct=f"{callee}({p}=...) in {q}")
